@@ -429,3 +429,126 @@ Example C07_wrong_password_rejected_nonvacuous :
   | _ => False
   end.
 Proof. exact ProofsReferee.wrong_password_rejected_nonvacuous. Qed.
+
+(* 8. (wave 6, closes referee issue I5 (b)) THE TAMPER CLAUSE ON A CREATED FILE WITH ONE MEMBER CHANGED.
+      The statements of section 7 speak about "any document t2 that decodes to (cf2, cc2, kp2)" -- the
+      model's own transcription of encoding/json; that the created file with its ciphertext / MAC / salt /
+      n / r / p / dklen changed decodes to the changed field was left to the differential run.  Here the
+      second document is [edit_doc x (JSON_tree w0)]: the JSON tree JSON() prints for the created wallet
+      w0, with the ONE member the edit x names replaced ([ProofsTamper.edit_doc] is a function on JSON trees:
+      crypto.ciphertext, crypto.mac, crypto.kdfparams.salt / n / r / p / c / dklen; every other member,
+      the metadata, the member order as they were).  No decoder appears in the hypotheses. *)
+From FFS Require Keystore.ProofsTamper.
+
+(* Any constructor, password, key, random stream, Metadata() assignments meeting the round-trip guard; x
+   any edit other than of the MAC, numbers any int64; the edited parameters within the allocation cap of
+   scrypt.Key (128*n*r <= 2^48, see C07_read_never_panics); pw2 ANY password.  The edited document -- and
+   any bytes that lex to it -- is refused WITH AN ERROR (not a key, not a panic) unless the MAC input it
+   leads to, DK(pw2, edited kdfparams)[16..32] ++ edited ciphertext, has the same digest as the MAC input of
+   the file as created.  With an edit that changes nothing (C07_created_tamper_nonvacuous, 5th conjunct)
+   this is the wrong-password clause for the created file itself.  Nothing is assumed about the hash. *)
+Theorem C07_created_tamper_rejected :
+  forall (P : prims), crypto_laws P ->
+  forall (c : creation) (rnd : bytes) (w : wallet) (rest : bytes) (extras : list (bytes * json))
+         (x : ProofsTamper.tamper) (pw2 : bytes),
+    create P c rnd = Ok (w, rest) -> Forall (extra_ok P) extras ->
+    let w0 := assign_all w extras in
+    let kp' := ProofsTamper.tamper_kdf (w_kdfparams w0) x in
+    let ct' := cc_ciphertext (ProofsTamper.tamper_cc (w_crypto w0) x) in
+    (forall m, x <> ProofsTamper.TMac m) -> ProofsTamper.tamper_ints x -> ReadTypes.kdf_cost_capped kp' = true ->
+    hash P (skipn 16 (ProofsReferee.dk_of P kp' pw2) ++ ct') <> hash P (mac_key P w0 (pw_of c) ++ cc_ciphertext (w_crypto w0)) ->
+    (exists e, read_wallet_tree P (ProofsTamper.edit_doc x (JSON_tree w0)) pw2 = Err e) /\
+    (forall data, json_parse P data = Some (ProofsTamper.edit_doc x (JSON_tree w0)) -> exists e, ReadWalletFile P data pw2 = Err e).
+Proof. exact ProofsTamper.created_doc_tamper_rejected. Qed.
+Print Assumptions C07_created_tamper_rejected.
+
+(* The MAC member changed to anything else, password as created: refused unconditionally. *)
+Theorem C07_created_mac_tamper_rejected :
+  forall (P : prims), crypto_laws P ->
+  forall (c : creation) (rnd : bytes) (w : wallet) (rest : bytes) (extras : list (bytes * json)) (m : bytes),
+    create P c rnd = Ok (w, rest) -> Forall (extra_ok P) extras ->
+    let w0 := assign_all w extras in
+    m <> cc_mac (w_crypto w0) ->
+    (exists e, read_wallet_tree P (ProofsTamper.edit_doc (ProofsTamper.TMac m) (JSON_tree w0)) (pw_of c) = Err e) /\
+    (forall data, json_parse P data = Some (ProofsTamper.edit_doc (ProofsTamper.TMac m) (JSON_tree w0)) ->
+                  exists e, ReadWalletFile P data (pw_of c) = Err e).
+Proof. exact ProofsTamper.created_doc_mac_tamper_rejected. Qed.
+Print Assumptions C07_created_mac_tamper_rejected.
+
+(* The edit on the tree is the edit on the wallet: JSON() of the wallet with that one field replaced IS the
+   edited document (so the decoded content of the edited document is not a separate assumption). *)
+Theorem C07_edit_doc_is_field_edit :
+  forall (w : wallet) (x : ProofsTamper.tamper),
+    ProofsTamper.edit_doc x (JSON_tree w) = JSON_tree (ProofsTamper.tamper_wallet w x).
+Proof. exact ProofsTamper.edit_doc_marshalled. Qed.
+Print Assumptions C07_edit_doc_is_field_edit.
+
+(* Files produced elsewhere: (t, pw) was accepted -- a scrypt or PBKDF2 file, strictly or leniently
+   formed -- and gave w0; JSON() of w0 with one member edited (MAC included) is refused with an error
+   whenever the edited fields do not satisfy the MAC equation for pw2.  Guard: no metadata key of w0
+   (= unknown top-level member of t) is a case variant of id / version / crypto. *)
+Theorem C07_read_tamper_rejected :
+  forall (P : prims), TotalProofs6.uuid_parse_16 P ->
+  forall (t : json) (pw : bytes) (w0 : wallet) (x : ProofsTamper.tamper) (pw2 : bytes),
+    read_wallet_tree P t pw = Ok w0 -> ProofsRead.exact_names ProofsRead.top_fields (w_metadata w0) = true ->
+    let kp' := ProofsTamper.tamper_kdf (w_kdfparams w0) x in
+    let cc' := ProofsTamper.tamper_cc (w_crypto w0) x in
+    ProofsTamper.tamper_ints x -> ReadTypes.kdf_cost_capped kp' = true ->
+    hash P (skipn 16 (ProofsReferee.dk_of P kp' pw2) ++ cc_ciphertext cc') <> cc_mac cc' ->
+    exists e, read_wallet_tree P (ProofsTamper.edit_doc x (JSON_tree w0)) pw2 = Err e.
+Proof. exact ProofsTamper.read_doc_tamper_rejected. Qed.
+Print Assumptions C07_read_tamper_rejected.
+
+(* The lemma underneath, for any wallet that marshals strictly (constructors, ReadWalletFile): whatever the
+   read path accepts from JSON_tree w satisfies the MAC equation on the FIELDS OF w. *)
+Theorem C07_marshalled_read_mac :
+  forall (P : prims) (w : wallet) (pw : bytes) (w2 : wallet),
+    ProofsTamper.strict_wallet w -> read_wallet_tree P (JSON_tree w) pw = Ok w2 ->
+    hash P (skipn 16 (ProofsReferee.dk_of P (w_kdfparams w) pw) ++ cc_ciphertext (w_crypto w)) = cc_mac (w_crypto w).
+Proof. exact ProofsTamper.marshalled_read_mac. Qed.
+Print Assumptions C07_marshalled_read_mac.
+
+(* Non-vacuity ([ProofsTamper.toy_mix]: the toy primitives with a scrypt whose second half depends on N, r,
+   p, password and salt; satisfies crypto_laws): a standard-preset file with one metadata assignment is
+   created and read back; ciphertext / salt with the first byte changed, n = 2048, r = 4, p = 2 -- each
+   edited document meets the cap and the digest hypothesis under the original password and is refused; the
+   unedited document under another password likewise; a changed MAC is refused. *)
+Example C07_created_tamper_nonvacuous :
+  crypto_laws ProofsTamper.toy_mix /\
+  match create ProofsTamper.toy_mix ProofsTamper.nv_c (repeat x2a 64) with
+  | Ok (w, _) =>
+      let w0 := assign_all w [(ascii_bytes "note", JStr (ascii_bytes "x"))] in
+      Forall (extra_ok ProofsTamper.toy_mix) [(ascii_bytes "note", JStr (ascii_bytes "x"))] /\
+      is_ok (read_wallet_tree ProofsTamper.toy_mix (JSON_tree w0) [x70; x77]) = true /\
+      forallb (ProofsTamper.nv_check w0 [x70; x77]) (ProofsTamper.nv_edits w0) = true /\
+      ProofsTamper.nv_check w0 [x70] (ProofsTamper.TCiphertext (cc_ciphertext (w_crypto w0))) = true /\
+      ProofsTamper.edit_doc (ProofsTamper.TCiphertext (cc_ciphertext (w_crypto w0))) (JSON_tree w0) = JSON_tree w0 /\
+      is_err (read_wallet_tree ProofsTamper.toy_mix (ProofsTamper.edit_doc (ProofsTamper.TMac (repeat x00 32)) (JSON_tree w0)) [x70; x77]) = true /\
+      bytes_eqb (repeat x00 32) (cc_mac (w_crypto w0)) = false
+  | _ => False
+  end.
+Proof. exact ProofsTamper.created_tamper_nonvacuous. Qed.
+
+(* 9. (wave 6) The guard [nums_ok] of C07_read_is_standard exercised, and shown necessary.  [ProofsNums.toy_num]
+      = the toy primitives with a number conversion that refuses literals longer than 8 characters (standing
+      for "does not fit a float64", e.g. 1e999); it satisfies the laws of theorem 3.  A created file with a small
+      extra number meets every guard and is read; with a refused number it is still decrypted by the
+      specification, unambiguous and within the cap, fails nums_ok -- and the read path refuses it. *)
+From FFS Require Keystore.ProofsNums.
+Example C07_nums_guard_exercised :
+  crypto_laws ProofsNums.toy_num /\ uuid_accepts_text ProofsNums.toy_num /\
+  let pw := [x70; x77] in
+  match create ProofsNums.toy_num (MkStandard pw {| kp_private := repeat x07 32; kp_address := repeat x0a 20 |}) (repeat x2a 64) with
+  | Ok (w, _) =>
+      let good := JSON_tree (assign_all w [(ascii_bytes "n", JNum (ascii_bytes "5"))]) in
+      let bad := JSON_tree (assign_all w [(ascii_bytes "n", JNum (ascii_bytes "123456789012"))]) in
+      nums_ok ProofsNums.toy_num good = true /\ is_ok (v3_decrypt ProofsNums.toy_num good pw) = true /\
+      is_ok (read_wallet_tree ProofsNums.toy_num good pw) = true /\
+      nums_ok ProofsNums.toy_num bad = false /\ is_ok (v3_decrypt ProofsNums.toy_num bad pw) = true /\ unambiguous bad = true /\
+      ReadTypes.doc_alloc_ok bad = true /\ is_err (read_wallet_tree ProofsNums.toy_num bad pw) = true
+  | _ => False
+  end.
+Proof.
+  split; [exact ProofsNums.toy_num_crypto_laws|]. split; [exact ProofsNums.toy_num_uuid_accepts_text|].
+  exact ProofsNums.nums_guard_exercised.
+Qed.
